@@ -88,6 +88,7 @@ type simCfg struct {
 	UniqueMake    bool
 	NormSubslice  bool
 	PreciseExits  bool
+	FlagExits     bool // a back edge that decides the flag the header tests leaves the loop directly
 	BackVals      bool // back samples carry the head state and the phi values (ranking-function rules)
 	NoLoopSamples bool // only function exits are sampled
 	Model         func(c *simClient, x *Exec, st *State, fr *Frame, site ssa.CallInstruction, name string, callee *ssa.Function, fnTerm *Term, args []*Term) (bool, []CallOut)
@@ -239,6 +240,7 @@ func runSim(p *Program, fn *ssa.Function, cfg *simCfg, args []*Term) (*simClient
 	x.UniqueMake = cfg.UniqueMake
 	x.NormSubslice = cfg.NormSubslice
 	x.PreciseExits = cfg.PreciseExits
+	x.FlagExits = cfg.FlagExits
 	st := newState(&simGhost{flags: map[string]*Term{}})
 	if args == nil {
 		for _, pa := range fn.Params {
